@@ -131,6 +131,18 @@ func runC09(a *args) error {
 				isDown[n] = true
 				d.c.nodes[n].setUnreachable(true)
 			}
+			// or a node whose result stream fails after the first item / carries an item with a malformed id
+			var faulty uint64
+			fault := ""
+			if len(down) == 0 && r.chance(1, 5) {
+				for _, n := range nodes {
+					if n != entry && (faulty == 0 || r.chance(1, 2)) {
+						faulty = n
+					}
+				}
+				fault = []string{"break", "badid"}[r.intn(2)]
+				d.c.nodes[faulty].setStreamFault(fault)
+			}
 			fc := fanCase{Kind: "search", K: k, Entry: entry, Down: down}
 			searchRec.mu.Lock()
 			searchRec.on, searchRec.msgs = true, nil
@@ -145,6 +157,16 @@ func runC09(a *args) error {
 			searchRec.mu.Unlock()
 			for _, n := range down {
 				d.c.nodes[n].setUnreachable(false)
+			}
+			if faulty != 0 {
+				d.c.nodes[faulty].setStreamFault("")
+				st.count("stream-fault:" + fault)
+				// did the search consult the faulty node, and did that node have anything to stream?
+				for _, m := range recorded {
+					if m.node == faulty && m.err && serr == nil {
+						st.ImplFailures = append(st.ImplFailures, implFailure{Case: len(cases), What: fmt.Sprintf("node %d's result stream failed (%s) and the search still returned success with %d items", faulty, fault, len(res)), Key: "partial-result-on-stream-fault:" + fault, Input: fc})
+					}
+				}
 			}
 			switch {
 			case serr != nil:
@@ -192,7 +214,7 @@ func runC09(a *args) error {
 						mustFail = true
 					}
 				}
-				if (mustFail && fc.Obs != "err") || (len(down) == 0 && fc.Obs != "ok") {
+				if (mustFail && fc.Obs != "err") || (len(down) == 0 && faulty == 0 && fc.Obs != "ok") {
 					st.ImplFailures = append(st.ImplFailures, implFailure{Case: len(cases), What: fmt.Sprintf("replicated dataset: outcome %s with down=%v", fc.Obs, down), Key: "search-outcome-wrong", Input: fc})
 				}
 			}
